@@ -12,8 +12,8 @@ use crate::array::{
         CodecOptions,
     },
     concurrency::{calc_concurrency_outer_inner, RecommendedConcurrency},
-    ravel_indices, ArrayBytes, ArrayBytesFixedDisjointView, ArraySize, ChunkRepresentation,
-    ChunkShape, DataType, DataTypeSize, RawBytes,
+    ravel_indices, ArrayBytes, ArrayBytesFixedDisjointView, ArraySize, BytesRepresentation,
+    ChunkRepresentation, ChunkShape, DataType, DataTypeSize, RawBytes,
 };
 
 #[cfg(feature = "async")]
@@ -23,6 +23,37 @@ use crate::array::codec::{
 };
 
 use super::{calculate_chunks_per_shard, ShardingIndexLocation};
+
+/// Check the encoded size of a stored inner chunk against the size declared by the inner codecs.
+///
+/// An inner chunk encoded by codecs with a fixed encoded size can only have that size.
+/// Any other size in the shard index means the index is corrupted, and partially decoding the
+/// inner chunk could otherwise silently read bytes that belong to something else.
+fn validate_inner_chunk_size(
+    inner_chunk_encoded_size: Option<u64>,
+    size: u64,
+) -> Result<(), CodecError> {
+    match inner_chunk_encoded_size {
+        Some(expected) if size != expected => Err(CodecError::Other(
+            "The shard index references an inner chunk with an unexpected encoded size. The chunk may be corrupted."
+                .to_string(),
+        )),
+        _ => Ok(()),
+    }
+}
+
+/// The encoded size of an inner chunk if the inner codecs have a fixed encoded size.
+fn inner_chunk_fixed_encoded_size(
+    inner_codecs: &CodecChain,
+    chunk_representation: &ChunkRepresentation,
+) -> Result<Option<u64>, CodecError> {
+    Ok(
+        match inner_codecs.encoded_representation(chunk_representation)? {
+            BytesRepresentation::FixedSize(size) => Some(size),
+            _ => None,
+        },
+    )
+}
 
 /// Partial decoder for the sharding codec.
 pub(crate) struct ShardingPartialDecoder {
@@ -146,6 +177,8 @@ impl ArrayPartialDecoderTraits for ShardingPartialDecoder {
                 self.decoded_representation.fill_value().clone(),
             )
         };
+        let inner_chunk_encoded_size =
+            inner_chunk_fixed_encoded_size(&self.inner_codecs, &chunk_representation)?;
 
         let chunks_per_shard = calculate_chunks_per_shard(
             self.decoded_representation.shape(),
@@ -200,6 +233,7 @@ impl ArrayPartialDecoderTraits for ShardingPartialDecoder {
                                 chunk_representation.fill_value(),
                             )
                         } else {
+                            validate_inner_chunk_size(inner_chunk_encoded_size, size)?;
                             // Partially decode the inner chunk
                             let partial_decoder = self.inner_codecs.clone().partial_decoder(
                                 Arc::new(ByteIntervalPartialDecoder::new(
@@ -281,6 +315,7 @@ impl ArrayPartialDecoderTraits for ShardingPartialDecoder {
                                 chunk_representation.fill_value(),
                             )
                         } else {
+                            validate_inner_chunk_size(inner_chunk_encoded_size, size)?;
                             // Partially decode the inner chunk
                             let partial_decoder = self.inner_codecs.clone().partial_decoder(
                                 Arc::new(ByteIntervalPartialDecoder::new(
@@ -432,6 +467,8 @@ impl AsyncArrayPartialDecoderTraits for AsyncShardingPartialDecoder {
                 self.decoded_representation.fill_value().clone(),
             )
         };
+        let inner_chunk_encoded_size =
+            inner_chunk_fixed_encoded_size(&self.inner_codecs, &chunk_representation)?;
 
         let mut out = Vec::with_capacity(array_subsets.len());
         // TODO: Could go parallel here?
@@ -467,6 +504,7 @@ impl AsyncArrayPartialDecoderTraits for AsyncShardingPartialDecoder {
                                     chunk_representation.fill_value(),
                                 )
                             } else {
+                                validate_inner_chunk_size(inner_chunk_encoded_size, size)?;
                                 // Partially decode the inner chunk
                                 let partial_decoder = self.inner_codecs.clone().async_partial_decoder(
                                     Arc::new(AsyncByteIntervalPartialDecoder::new(
@@ -552,6 +590,10 @@ impl AsyncArrayPartialDecoderTraits for AsyncShardingPartialDecoder {
                             .map(|(chunk_subset, (offset, size))| {
                                 let chunk_representation = chunk_representation.clone();
                                 async move {
+                                validate_inner_chunk_size(
+                                    inner_chunk_encoded_size,
+                                    u64::try_from(*size).unwrap(),
+                                )?;
                                 let partial_decoder = self
                                     .inner_codecs
                                     .clone()
